@@ -240,6 +240,16 @@ func wideLRUCase(k *engine.Case) {
 	if r.Intn(4) == 0 {
 		capacity = 1<<50 + int64(r.Intn(1000))
 	}
+	singleCap := capacity
+	if r.Intn(7) == 0 {
+		// one shard, tight capacity: the sharded cache is then one LRU of capacity/1+1, and every
+		// answer (including which entry an insertion evicts) must equal the unsharded cache of
+		// that capacity - recency handling of the wrapper (Exist/Peek must not refresh) shows here
+		rt.n = 1
+		capacity = int64(1 + r.Intn(8))
+		singleCap = capacity + 1
+		k.Count("lru_cases_one_shard_tight", 1)
+	}
 	var wide, single lruAPI
 	name := "cache.WideLRUCache"
 	if useTiny {
@@ -249,7 +259,7 @@ func wideLRUCase(k *engine.Case) {
 		} else {
 			wide = tinyAPI(tiny.NeWideLRU(capacity, rt.opts()...))
 		}
-		single = tinyAPI(tiny.NewSingleLRUCache(capacity))
+		single = tinyAPI(tiny.NewSingleLRUCache(singleCap))
 		k.Count("lru_cases_tiny", 1)
 	} else {
 		if rt.xhash {
@@ -257,7 +267,7 @@ func wideLRUCase(k *engine.Case) {
 		} else {
 			wide = cacheAPI(cache.NeWideLRUCache(capacity, rt.opts()...))
 		}
-		single = cacheAPI(cache.NewSingleLRUCache(capacity))
+		single = cacheAPI(cache.NewSingleLRUCache(singleCap))
 		k.Count("lru_cases_cache", 1)
 	}
 	k.Logf("%s %s capacity=%d vs single LRU", name, rt, capacity)
